@@ -107,6 +107,18 @@ def x_prog(ctx, case):
         # ... but a success reported although something raised is C03's concern whatever else follows
         if "addSuccess" in names and (raised or forced):
             ctx.check(False, "success-only-if-clean", detail)
+        if not names and raised and not programs.is_decor_skip(program):
+            # no outcome at all: whatever C01 says about that, a raised failure / error must not leave
+            # the run looking successful
+            mapped0 = [programs.expected_outcome(exc, the_case, env) or "addError" for _, _, exc in raised]
+            if any(m in ("addError", "addFailure") for m in mapped0):
+                real0 = __import__("testtools").TestResult()
+                try:
+                    programs.execute(program, lambda: real0, runner_factory=programs.runner_factory_for(case.get("runner")))
+                except BaseException:  # noqa
+                    pass
+                ctx.check(not real0.wasSuccessful(), "real.wasSuccessful-false-after-failure",
+                          lambda: {"no outcome reported": True, **detail()})
         return bool(raised)
     outcome = names[0]
     if programs.is_decor_skip(program):
@@ -163,7 +175,31 @@ def x_prog(ctx, case):
     return True
 
 
-SUBCHECKS = {"prog": x_prog, "twin": x_twin}
+def x_xfail_decor(ctx, case):
+    """A test method decorated with unittest.expectedFailure, the same instance run several times:
+    every run maps 'the method passed' to unexpected success and 'the method raised' to expected failure."""
+    import testtools
+    tok = progen.Tok()
+    program = {"su_pre": [], "su": [], "td": [], "td_pre": [], "decor": "stdlib_expectedFailure",
+               "test": [] if case["test"] == "ok" else [["raise", case["test"], tok("X")]]}
+    want = "addUnexpectedSuccess" if case["test"] == "ok" else "addExpectedFailure"
+    env = programs.Env(program)
+    the_case = programs.build_case(program, env)
+    for i in range(case["runs"]):
+        log = recorders.Log()
+        real = testtools.TestResult()
+        target = testtools.MultiTestResult(recorders.ExtRecorder(log), real)
+        programs.execute(program, lambda: target, env=env, case=the_case)
+        env.reset_for_rerun()
+        names = [n for n in log.names() if n in recorders.OUTCOMES]
+        ctx.check(names == [want], "single.outcome-is-mapped-one",
+                  lambda: {"@expectedFailure test": case["test"], "run": i + 1, "got": names, "want": want})
+        ctx.check(real.wasSuccessful() == (want == "addExpectedFailure"), "real.wasSuccessful-false-after-failure",
+                  lambda: {"@expectedFailure test": case["test"], "run": i + 1, "wasSuccessful": real.wasSuccessful()})
+    return True
+
+
+SUBCHECKS = {"prog": x_prog, "twin": x_twin, "xfail_decor": x_xfail_decor}
 
 FEATURES = ("own_exc", "expect", "force", "decor", "noupcall", "nested_cleanup", "handlers", "late_handler",
             "truthy_return")
@@ -180,6 +216,24 @@ def run(ctx):
                 n += 1
                 ctx.execute("prog", {"placed": [[stage, kind]]})
     ctx.note_space("single raise: 5 stages x 12 kinds", n)
+    n = 0
+    for stage in STAGES:
+        for other in (None, "fail", "skip"):
+            if ctx.mine():
+                n += 1
+                placed = [[stage, "custom:CustomFalsy"]]
+                if other:
+                    placed.append([[s2 for s2 in STAGES if s2 != stage][0], other])
+                ctx.execute("prog", {"placed": placed})
+    ctx.note_space("an exception object that is falsy (defines __len__), at each stage, alone / with a failure / "
+                   "with a skip", n)
+    n = 0
+    for beh in ("ok", "fail", "error", "failsub", "mismatch", "skip"):
+        for runs in (1, 2, 3):
+            if ctx.mine():
+                n += 1
+                ctx.execute("xfail_decor", {"test": beh, "runs": runs})
+    ctx.note_space("@unittest.expectedFailure test method x 6 behaviours x 1..3 runs of the same instance", n)
     n = 0
     for stages in itertools.combinations(STAGES, 2):
         for kinds in itertools.product(KINDS6, repeat=2):
